@@ -363,4 +363,67 @@ L_ICON = {
     "unmapped": [0x0, 0x4, 0x8, 0xC, 0x18, 0x1C],
 }
 
-LAYOUTS = {l["name"]: l for l in (L_MEMWORD, L_FIELDS, L_ARRAY, L_NESTED, L_RANGE, L_MEMORY, L_ICON)}
+# ----------------------------------------------------------------------------------------------------------
+# L8  repeated types: the same RegFile class (notifying Register + MemWord) placed twice; every instance has its own
+#     notification outputs
+# ----------------------------------------------------------------------------------------------------------
+SRC_TWINS = HEADER + '''
+class Rn(reg32.Register):
+    data: reg32.MemField[31:0, Null]
+    wn: reg32.PushOnNotify.Write
+    rn: reg32.PushOnNotify.Read
+
+
+class Ch(reg32.RegFile, word_count=2):
+    r: Rn[0x0]
+    m: reg32.MemWord[0x4]
+
+
+class Map(reg32.AddrMap):
+    a: Ch[0x0]
+    b: Ch[0x8]
+
+    def _config_(self, e):
+        self._e = e
+
+    def _impl_concurrent_(self):
+        self._e.o_a_d <<= self.a.r.data.val()
+        self._e.o_a_wn <<= bool(self.a.r.wn)
+        self._e.o_a_rn <<= bool(self.a.r.rn)
+        self._e.o_a_m <<= self.a.m.raw
+        self._e.o_b_d <<= self.b.r.data.val()
+        self._e.o_b_wn <<= bool(self.b.r.wn)
+        self._e.o_b_rn <<= bool(self.b.r.rn)
+        self._e.o_b_m <<= self.b.m.raw
+
+
+class T(axi.addr_map_entity(addr_width=4)):
+    o_a_d = Port.output(BitVector[32])
+    o_a_wn = Port.output(Bit)
+    o_a_rn = Port.output(Bit)
+    o_a_m = Port.output(BitVector[32])
+    o_b_d = Port.output(BitVector[32])
+    o_b_wn = Port.output(Bit)
+    o_b_rn = Port.output(Bit)
+    o_b_m = Port.output(BitVector[32])
+
+    def architecture(self):
+        self.interface_connection().connect_addr_map(Map(self))
+'''
+
+
+def _nreg(name, addr, p):
+    return {"name": name, "addr": addr, "cls": "Register", "notify": [("write", f"o_{p}_wn"), ("read", f"o_{p}_rn")],
+            "fields": [{"name": "data", "hi": 31, "lo": 0, "kind": "mem", "port": f"o_{p}_d", "default": 0}]}
+
+
+L_TWINS = {
+    "name": "twins",
+    "source": SRC_TWINS,
+    "regs": [_nreg("a.r", 0x0, "a"), _word("a.m", 0x4, "MemWord", "o_a_m"),
+             _nreg("b.r", 0x8, "b"), _word("b.m", 0xC, "MemWord", "o_b_m")],
+    "hw": [],
+    "unmapped": [],
+}
+
+LAYOUTS = {l["name"]: l for l in (L_MEMWORD, L_FIELDS, L_ARRAY, L_NESTED, L_RANGE, L_MEMORY, L_ICON, L_TWINS)}
